@@ -4,7 +4,7 @@
   yash-fnmatch/src/ast/regex.rs on every run, so editing either constant re-checks (and can break)
   `meta_subset`, `escape_roundtrip` and `toRegex_correct`.
 -/
-import YashModel.Fnmatch.CaseLemmas
+import YashModel.Fnmatch.ParseSpec
 
 namespace YashModel.Fnmatch
 open YashModel.Generated.FnmatchTables
@@ -238,6 +238,122 @@ example :
     let ast : Ast := [.bracket ⟨true, [.atom (.cls "digit".toList), .range (.char 'x') (.char 'z')]⟩, .anyString,
       .bracket ⟨false, [.atom (.collating ['-'])]⟩]
     astDefined ast = true ∧ noMulti ast = true := by decide
+
+
+/-! ## ★★ end to end: pattern characters → POSIX notation → match (proof-deepening round) -/
+
+/-- ★ The implementation's parser — item stack, hyphen flags, `make_range` after every push, `]`/`!`/`^`/`[`
+    special only when unquoted and in position — computes exactly the grammar of the Spec (`specBracket`,
+    `specParse`: member := elem `-` elem | elem, written without any stack), for every pattern-character string. -/
+theorem parser_is_grammar (cs : List PatternChar) :
+    parseBracket cs = specBracket cs ∧ parseAtoms cs = specParse cs :=
+  ⟨parseBracket_eq_spec cs, parseAtoms_eq_spec cs.length cs (Nat.le_refl _)⟩
+
+/-- ★★ `match_correct`: for EVERY pattern-character string (quoted and unquoted characters, any characters)
+    and every subject: if the pattern compiles under the `case` configuration, `is_match` is exactly POSIX
+    pattern matching as defined by the Spec from the characters up (`posixMatch` = grammar + `globMatch`), and
+    every pattern inside the defined notation does compile.  The chain parser → regex text → regex-crate parse
+    → leftmost-first search (or the literal fast path) is kernel-checked end to end. -/
+theorem match_correct (pcs : List PatternChar) (cfg : Config) (hb : cfg.anchorBegin = true)
+    (he : cfg.anchorEnd = true) (hl : cfg.literalPeriod = false) :
+    (∀ p, Pattern.parse pcs cfg = .ok p → ∀ s, p.isMatch s = posixMatch pcs s) ∧
+    (astDefined (specParse pcs) = true → ∃ p, Pattern.parse pcs cfg = .ok p) := by
+  have hp := (parser_is_grammar pcs).2
+  constructor
+  · intro p h s
+    unfold posixMatch
+    rw [← hp]
+    exact isMatch_correct (parseAtoms pcs) cfg hb he hl p h s
+  · intro hd
+    rw [← hp] at hd
+    exact defined_compiles (parseAtoms pcs) hd cfg
+
+/-- non-vacuity: the quoted pattern `a*` is inside the defined notation (so it compiles and `match_correct`
+    speaks about it) -/
+example : astDefined (specParse (List.map PatternChar.literal ['a', '*'])) = true := by
+  rw [← (parser_is_grammar _).2, Proofs.parseAtoms_literals]; decide
+
+/-- ★ Prefix removal for EVERY pattern (also with multi-character collating elements, where `noMulti` fails):
+    what `#`/`##` remove is a matching prefix, and nothing is removed only when no prefix matches.  Which
+    matching prefix: the first in the matcher's priority order (alternatives of a bracket in the order written,
+    `*` lazy/greedy) — the least/greatest one exactly when `noMulti` (`trim_correct`). -/
+theorem prefix_trim_sound (ast : Ast) (len : TrimLength) (p : Pattern)
+    (h : Pattern.fromAst ast (trimConfig .prefix len) = .ok p) (v : List Char) :
+    (trimValue p v = v ∧ ∀ k, k ≤ v.length → globMatch ast (v.take k) = false) ∨
+    (∃ k, k ≤ v.length ∧ trimValue p v = v.drop k ∧ globMatch ast (v.take k) = true) :=
+  Proofs.prefix_trim_sound ast len p h v
+
+/-- non-vacuity outside `noMulti`: `[a[.ab.]]` compiles for `##` and removes the matching prefix `a` of `ab` -/
+example :
+    let ast : Ast := [.bracket ⟨false, [.atom (.char 'a'), .atom (.collating ['a', 'b'])]⟩]
+    (match Pattern.fromAst ast (trimConfig .prefix .longest) with
+     | .ok p => some (trimValue p "ab".toList)
+     | .error _ => none) = some ("ab".toList.drop 1) ∧ globMatch ast ("ab".toList.take 1) = true := by decide
+
+/-- ★ The shell-level suffix trims for every defined pattern, with no hypothesis on multi-character elements
+    (the statement a wrong `shortest_match` in `trim::apply`'s configuration breaks — seeded change 3). -/
+theorem trimApply_suffix_correct (pcs : List PatternChar) (hd : astDefined (parseAtoms pcs) = true)
+    (len : TrimLength) (v : List Char) :
+    trimApply .suffix len pcs v = specTrim .suffix len (parseAtoms pcs) v :=
+  Proofs.trimApply_suffix_correct pcs hd len v
+
+/-- ★ The Spec's searches meet their description: `leastUpTo` / `greatestUpTo` return the least / greatest
+    `k ≤ n` with `p k`, and `none` exactly when there is none (so `specTrim` removes the shortest / longest
+    matching prefix / suffix in the literal sense). -/
+theorem specTrim_declarative (p : Nat → Bool) (n : Nat) :
+    ((leastUpTo p n = none ∧ ∀ j, j ≤ n → p j = false) ∨
+     (∃ k, leastUpTo p n = some k ∧ k ≤ n ∧ p k = true ∧ ∀ j, j < k → p j = false)) ∧
+    ((greatestUpTo p n = none ∧ ∀ j, j ≤ n → p j = false) ∨
+     (∃ k, greatestUpTo p n = some k ∧ k ≤ n ∧ p k = true ∧ ∀ j, k < j → j ≤ n → p j = false)) :=
+  ⟨Proofs.leastUpTo_spec, Proofs.greatestUpTo_spec⟩
+
+/-- ★ `rfind` steps by characters, not bytes (seeded change 1): from the match starting at character `i` the
+    byte-wise probe `(start+1..=len).find(is_char_boundary)` lands exactly on character `i+1` — whatever the
+    encoded length (1–4 bytes) of character `i` — and on nothing only at the end of the text; hence one round
+    of the loop is "search again from the next character". -/
+theorem rfind_step_is_next_char (text : List Char) (i : Nat) (g : Bool) (re : List ReAtom) (fuel : Nat)
+    (cur : Nat × Nat) :
+    (nextBoundary text (byteOffset text i)).map (·.1) = (if i + 1 ≤ text.length then some (i + 1) else none) ∧
+    rfindLoop g re text (fuel + 1) cur =
+      (if cur.1 + 1 ≤ text.length then
+        (match findAt g re text (cur.1 + 1) with
+         | some r => rfindLoop g re text fuel r
+         | none => cur)
+       else cur) :=
+  ⟨nextBoundary_index text i, rfindLoop_unfold g re text fuel cur⟩
+
+/-- non-vacuity: after the 4-byte character `𝄞` (bytes 0..4) the next boundary is byte 4 = character 1 -/
+example : nextBoundary "𝄞a".toList (byteOffset "𝄞a".toList 0) = some (1, 4) := by decide
+
+/-- ★ The whole `case` command (`case.rs execute` + `matches`: every item, every `|`-alternative, `;;` `;&`
+    `;;&`): with all alternatives inside the defined notation, the bodies that run, in order, are the Spec's
+    (`specCaseExec` over the grammar-parsed alternatives); the error-aware run the driver uses for failing
+    expansions is the same run when nothing fails; and the Spec's run starts at the Spec's selected item. -/
+theorem caseExec_spec (subj : List Char) (items : List (List (List PatternChar) × CaseCont))
+    (hd : ∀ it ∈ items, ∀ p ∈ it.1, astDefined (parseAtoms p) = true) :
+    caseExec items subj = specCaseExec subj false 0 (items.map fun it => (it.1.map specParse, it.2)) ∧
+    caseExecEGo subj false 0 (items.map fun it => (it.1.map some, it.2)) = (caseExec items subj, false) ∧
+    (specCaseExec subj false 0 (items.map fun it => (it.1.map specParse, it.2))).head? =
+      specCaseSelect (items.map fun it => it.1.map specParse) subj := by
+  have hfun : parseAtoms = specParse := funext fun cs => (parser_is_grammar cs).2
+  refine ⟨?_, Proofs.caseExecEGo_no_error subj items false 0, ?_⟩
+  · rw [← hfun]; exact Proofs.caseExecGo_spec subj items hd false 0
+  · rw [Proofs.specCaseExec_head]
+    unfold specCaseSelect
+    simp only [List.map_map, List.findIdx?_map, Option.map_map]
+    have : ∀ o : Option Nat, Option.map (fun x => x + 0) o = o := by intro o; cases o <;> rfl
+    rw [this]
+    rfl
+
+/-- non-vacuity: an item list whose alternatives are quoted patterns meets the hypothesis -/
+example : ∀ it ∈ [([List.map PatternChar.literal ['a']], CaseCont.brk)], ∀ p ∈ it.1,
+    astDefined (parseAtoms p) = true := by
+  intro it hi p hp
+  simp at hi; subst hi
+  simp at hp; subst hp
+  have := Proofs.parseAtoms_literals ['a']
+  simp only [List.map] at this
+  rw [this]; decide
 
 /-! ## ★ `case` runs the first item with a matching pattern -/
 
